@@ -264,7 +264,9 @@ def run(ck, ix, tier):
     for name in ("__mul__", "__truediv__", "__eq__", "from_"):
         f = ix.func(PU, f"PlainUnit.{name}")
         cfg = cfg_of(f)
-        gates = [n.id for n in cfg.nodes if n.kind == "test" and "self._check(" in norm(n.ast)]
+        # executing self._check(other) is what matters (it raises for a unit of another registry), in a test or in
+        # `same_registry = self._check(other)`
+        gates = nodes_with(cfg, lambda x: isinstance(x, ast.Call) and call_name(x) == "_check" and isinstance(x.func, ast.Attribute) and norm(x.func.value) == "self" and x.args and norm(x.args[0]) == "other")
         reads = nodes_with(cfg, lambda x: isinstance(x, ast.Attribute) and x.attr == "_units" and dotted(x.value) in ("other",))
         for r in live(cfg, reads):
             if r in gates:
